@@ -263,6 +263,98 @@ Section W.
   Qed.
 End W.
 
+(* ------------------------------------------------------------------ the timestamp components over any bound list
+   (used for slot tables, whose bounds are read through slot_bnds) *)
+Section WL.
+  Variable w : window.
+  Variable l : list bnd.
+  Lemma app_nil_inv' {A} (a b : list A) : a ++ b = [] -> a = [] /\ b = [].
+  Proof. destruct a; cbn; [intros ->; split; reflexivity | discriminate]. Qed.
+
+  Lemma ts_lower_req_ok_l :
+    ts_lower_failures w l true = [] <->
+    (exists lo, List.In (TsLo lo) l /\ w_lo_min w <= lo) /\ (forall lo, List.In (TsLo lo) l -> lo <= w_from w).
+  Proof.
+    unfold ts_lower_failures. destruct (zmax_list (ts_los l)) as [m|] eqn:E.
+    - apply zmax_list_spec in E. destruct E as [Hin Hmax]. rewrite in_ts_los in Hin.
+      split.
+      + intros H. apply app_nil_inv' in H. destruct H as [H1 H2].
+        destruct (m >? w_from w) eqn:E1; [discriminate|].
+        cbn [andb] in H2. destruct (m <? w_lo_min w) eqn:E2; [discriminate|].
+        split; [exists m; split; [exact Hin | lia]|].
+        intros lo Hlo. rewrite <- in_ts_los in Hlo. specialize (Hmax _ Hlo). lia.
+      + intros [[lo [Hlo Hge]] Hall].
+        assert (Hm : m <= w_from w) by (apply Hall, Hin).
+        assert (Hlm : lo <= m) by (apply Hmax; rewrite in_ts_los; exact Hlo).
+        destruct (m >? w_from w) eqn:E1; [lia|]. cbn [andb app].
+        destruct (m <? w_lo_min w) eqn:E2; [lia | reflexivity].
+    - apply zmax_list_none in E. split; [discriminate|].
+      intros [[lo [Hlo _]] _]. rewrite <- in_ts_los, E in Hlo. destruct Hlo.
+  Qed.
+
+  Lemma ts_upper_req_ok_l :
+    ts_upper_failures w l true = [] <->
+    (exists hi, List.In (TsHi hi) l /\ hi <= w_hi_max w + 1) /\ (forall hi, List.In (TsHi hi) l -> w_to w <= hi).
+  Proof.
+    unfold ts_upper_failures. destruct (zmin_list (ts_his l)) as [m|] eqn:E.
+    - apply zmin_list_spec in E. destruct E as [Hin Hmin]. rewrite in_ts_his in Hin.
+      split.
+      + intros H. apply app_nil_inv' in H. destruct H as [H1 H2].
+        destruct (m <? w_to w) eqn:E1; [discriminate|].
+        cbn [andb] in H2. destruct (m >? w_hi_max w + 1) eqn:E2; [discriminate|].
+        split; [exists m; split; [exact Hin | lia]|].
+        intros hi Hhi. rewrite <- in_ts_his in Hhi. specialize (Hmin _ Hhi). lia.
+      + intros [[hi [Hhi Hle]] Hall].
+        assert (Hm : w_to w <= m) by (apply Hall, Hin).
+        assert (Hlm : m <= hi) by (apply Hmin; rewrite in_ts_his; exact Hhi).
+        destruct (m <? w_to w) eqn:E1; [lia|]. cbn [andb app].
+        destruct (m >? w_hi_max w + 1) eqn:E2; [lia | reflexivity].
+    - apply zmin_list_none in E. split; [discriminate|].
+      intros [[hi [Hhi _]] _]. rewrite <- in_ts_his, E in Hhi. destruct Hhi.
+  Qed.
+End WL.
+
+Lemma in_slot_bnds_lo k l x : List.In (TsLo x) (slot_bnds k l) <-> exists z, List.In (TsLo z) l /\ x = cl_slot k z.
+Proof.
+  unfold slot_bnds. rewrite in_map_iff. split.
+  - intros [b [Hb Hin]]. destruct b; try discriminate Hb. injection Hb as <-. eexists; split; [exact Hin | reflexivity].
+  - intros [z [Hin ->]]. exists (TsLo z). split; [reflexivity | exact Hin].
+Qed.
+Lemma in_slot_bnds_hi k l x : List.In (TsHi x) (slot_bnds k l) <-> exists z, List.In (TsHi z) l /\ x = cl_slot k z.
+Proof.
+  unfold slot_bnds. rewrite in_map_iff. split.
+  - intros [b [Hb Hin]]. destruct b; try discriminate Hb. injection Hb as <-. eexists; split; [exact Hin | reflexivity].
+  - intros [z [Hin ->]]. exists (TsHi z). split; [reflexivity | exact Hin].
+Qed.
+
+(* the slot-table verdict is exactly slot_bounded *)
+Lemma slot_ok k w sc :
+  ts_lower_failures (slot_win k w) (slot_bnds k (bounds sc)) true ++ ts_upper_failures (slot_win k w) (slot_bnds k (bounds sc)) true = []
+  <-> slot_bounded k w sc.
+Proof.
+  split.
+  - intros H. apply app_nil_inv' in H. destruct H as [H1 H2].
+    apply ts_lower_req_ok_l in H1. apply ts_upper_req_ok_l in H2.
+    destruct H1 as [[lo [A1 A2]] B], H2 as [[hi [C1 C2]] D].
+    apply in_slot_bnds_lo in A1. destruct A1 as [lo0 [A1 ->]]. apply in_slot_bnds_hi in C1. destruct C1 as [hi0 [C1 ->]].
+    cbn [slot_win w_lo_min w_hi_max w_from w_to] in *.
+    constructor.
+    + exists lo0. split; [apply in_bounds, A1 | exact A2].
+    + intros x Hx. apply B. apply in_slot_bnds_lo. exists x. split; [apply in_bounds, Hx | reflexivity].
+    + exists hi0. split; [apply in_bounds, C1 | lia].
+    + intros x Hx. apply D. apply in_slot_bnds_hi. exists x. split; [apply in_bounds, Hx | reflexivity].
+  - intros [[lo [A1 A2]] B [hi [C1 C2]] D].
+    rewrite (proj2 (ts_lower_req_ok_l (slot_win k w) (slot_bnds k (bounds sc)))),
+            (proj2 (ts_upper_req_ok_l (slot_win k w) (slot_bnds k (bounds sc)))); [reflexivity | |];
+      cbn [slot_win w_lo_min w_hi_max w_from w_to].
+    + split.
+      * exists (cl_slot k hi). split; [apply in_slot_bnds_hi; exists hi; split; [apply in_bounds, C1 | reflexivity] | lia].
+      * intros x Hx. apply in_slot_bnds_hi in Hx. destruct Hx as [z [Hz ->]]. apply D, in_bounds, Hz.
+    + split.
+      * exists (cl_slot k lo). split; [apply in_slot_bnds_lo; exists lo; split; [apply in_bounds, A1 | reflexivity] | exact A2].
+      * intros x Hx. apply in_slot_bnds_lo in Hx. destruct Hx as [z [Hz ->]]. apply B, in_bounds, Hz.
+Qed.
+
 (* ------------------------------------------------------------------ the oracle is exact *)
 Theorem scan_bounded_b_iff info w sc : scan_bounded_b info w sc = true <-> scan_bounded info w sc.
 Proof.
@@ -302,6 +394,8 @@ Proof.
         reflexivity. }
     rewrite H. reflexivity.
   - split; [intros [H _]; discriminate | intros [[] _]].
+  - (* slot table *)
+    rewrite slot_ok. reflexivity.
 Qed.
 
 Theorem every_scan_bounded_b_sound info w s :
@@ -315,6 +409,105 @@ Theorem every_scan_bounded_b_complete info w s :
 Proof.
   unfold every_scan_bounded_b. rewrite forallb_forall, Forall_forall. intros H sc Hsc.
   apply scan_bounded_b_iff, H, Hsc.
+Qed.
+
+(* ------------------------------------------------------------------ slot arithmetic, and what slot_bounded means for the data *)
+Lemma fl_slot_spec k x : 0 < k -> fl_slot k x <= x < fl_slot k x + k /\ fl_slot k x mod k = 0.
+Proof.
+  intros Hk. unfold fl_slot. split; [|apply Z_mod_mult].
+  pose proof (Z.mul_div_le x k Hk). pose proof (Z.mul_succ_div_gt x k Hk). lia.
+Qed.
+Lemma cl_slot_spec k x : 0 < k -> x <= cl_slot k x < x + k /\ cl_slot k x mod k = 0.
+Proof.
+  intros Hk. unfold cl_slot. split; [|apply Z_mod_mult].
+  pose proof (Z.mul_div_le (- x) k Hk). pose proof (Z.mul_succ_div_gt (- x) k Hk). lia.
+Qed.
+Lemma multiple_eq k a : 0 < k -> a mod k = 0 -> a = k * (a / k).
+Proof. intros Hk H. apply Z_div_exact_full_2; [lia | exact H]. Qed.
+Lemma multiples_apart k a b : 0 < k -> a mod k = 0 -> b mod k = 0 -> a < b -> a + k <= b.
+Proof.
+  intros Hk Ha Hb Hlt. rewrite (multiple_eq k a Hk Ha), (multiple_eq k b Hk Hb) in *.
+  assert (a / k < b / k) by nia. nia.
+Qed.
+Lemma cl_slot_aligned k x : 0 < k -> x mod k = 0 -> cl_slot k x = x.
+Proof.
+  intros Hk H. destruct (cl_slot_spec k x Hk) as [[H1 H2] H3].
+  destruct (Z.eq_dec (cl_slot k x) x) as [E|E]; [exact E|].
+  assert (x < cl_slot k x) by lia. pose proof (multiples_apart k x (cl_slot k x) Hk H H3 H0). lia.
+Qed.
+Lemma fl_slot_aligned k x : 0 < k -> x mod k = 0 -> fl_slot k x = x.
+Proof.
+  intros Hk H. destruct (fl_slot_spec k x Hk) as [[H1 H2] H3].
+  destruct (Z.eq_dec (fl_slot k x) x) as [E|E]; [exact E|].
+  assert (fl_slot k x < x) by lia. pose proof (multiples_apart k (fl_slot k x) x Hk H3 H H0). lia.
+Qed.
+(* among the stamps (multiples of k), `stamp >= x` is `stamp >= cl_slot k x` and `stamp <= x` is `stamp <= fl_slot k x` *)
+Lemma cl_slot_least k x s : 0 < k -> s mod k = 0 -> x <= s -> cl_slot k x <= s.
+Proof.
+  intros Hk Hs Hle. destruct (cl_slot_spec k x Hk) as [[H1 H2] H3].
+  destruct (Z_le_gt_dec (cl_slot k x) s) as [L|G]; [exact L|].
+  pose proof (multiples_apart k s (cl_slot k x) Hk Hs H3 ltac:(lia)). lia.
+Qed.
+Lemma fl_slot_greatest k x s : 0 < k -> s mod k = 0 -> s <= x -> s <= fl_slot k x.
+Proof.
+  intros Hk Hs Hle. destruct (fl_slot_spec k x Hk) as [[H1 H2] H3].
+  destruct (Z_le_gt_dec s (fl_slot k x)) as [L|G]; [exact L|].
+  pose proof (multiples_apart k (fl_slot k x) s Hk H3 Hs ltac:(lia)). lia.
+Qed.
+Lemma cl_slot_mono k x y : 0 < k -> x <= y -> cl_slot k x <= cl_slot k y.
+Proof.
+  intros Hk Hle. destruct (cl_slot_spec k y Hk) as [[H1 _] H3]. apply cl_slot_least; [exact Hk | exact H3 | lia].
+Qed.
+
+(* completeness at slot granularity: for every instant t of the window the row that holds t - the one stamped
+   fl_slot k t - passes every timestamp conjunct of a slot_bounded scan *)
+Theorem slot_window_complete k w sc t :
+  0 < k -> slot_bounded k w sc -> w_from w <= t < w_to w ->
+  (forall lo, has_bnd sc (TsLo lo) -> lo <= fl_slot k t) /\ (forall hi, has_bnd sc (TsHi hi) -> fl_slot k t < hi).
+Proof.
+  intros Hk [_ B _ D] Ht. split.
+  - intros lo Hlo. specialize (B _ Hlo). destruct (cl_slot_spec k lo Hk) as [[H1 _] H3].
+    pose proof (fl_slot_greatest k t (cl_slot k lo) Hk H3 ltac:(lia)). lia.
+  - intros hi Hhi. specialize (D _ Hhi). destruct (cl_slot_spec k hi Hk) as [[_ H2] H3].
+    destruct (fl_slot_spec k t Hk) as [[F1 _] F3].
+    pose proof (multiples_apart k (fl_slot k t) (cl_slot k hi) Hk F3 H3 ltac:(lia)). lia.
+Qed.
+(* confinement at slot granularity: a row (stamp s, a multiple of k) that passes the timestamp conjuncts holds only
+   data of [fl_slot k lo_min, cl_slot k (hi_max + 1)): the allowed region widened to whole slots *)
+Theorem slot_window_confined k w sc s :
+  0 < k -> slot_bounded k w sc -> s mod k = 0 ->
+  (forall lo, has_bnd sc (TsLo lo) -> lo <= s) -> (forall hi, has_bnd sc (TsHi hi) -> s < hi) ->
+  fl_slot k (w_lo_min w) <= s /\ s + k <= cl_slot k (w_hi_max w + 1).
+Proof.
+  intros Hk [[lo [A1 A2]] _ [hi [C1 C2]] _] Hs Hlo Hhi. split.
+  - pose proof (cl_slot_least k lo s Hk Hs (Hlo _ A1)). lia.
+  - destruct (cl_slot_spec k hi Hk) as [[H1 _] H3].
+    pose proof (multiples_apart k s (cl_slot k hi) Hk Hs H3 ltac:(specialize (Hhi _ C1); lia)). lia.
+Qed.
+(* why the lower bound of a slot-table read must lie on a slot boundary: the row that holds an unaligned bound is
+   stamped below it and is not read, although it holds the data of [lo, stamp + k) *)
+Lemma slot_unaligned_lower_loses k lo :
+  0 < k -> lo mod k <> 0 -> fl_slot k lo < lo < fl_slot k lo + k /\ lo < cl_slot k lo.
+Proof.
+  intros Hk Hne. destruct (fl_slot_spec k lo Hk) as [[F1 F2] F3]. destruct (cl_slot_spec k lo Hk) as [[C1 _] C3].
+  assert (fl_slot k lo <> lo) by (intros E; rewrite E in F3; contradiction).
+  assert (cl_slot k lo <> lo) by (intros E; rewrite E in C3; contradiction). lia.
+Qed.
+
+(* the same for a scan judged by the oracle: a slot-table scan that is scan_bounded reads, for every instant of the
+   window, the row holding it - and no row whose data lies outside the window widened to whole slots *)
+Theorem scan_bounded_slot_complete info w sc k t :
+  scan_bounded info w sc -> ti_class (info (sc_table sc)) = CSlot k -> 0 < k -> w_from w <= t < w_to w ->
+  (forall lo, has_bnd sc (TsLo lo) -> lo <= fl_slot k t) /\ (forall hi, has_bnd sc (TsHi hi) -> fl_slot k t < hi).
+Proof.
+  intros [H _] Hc Hk Ht. rewrite Hc in H. exact (slot_window_complete k w sc t Hk H Ht).
+Qed.
+Theorem scan_bounded_slot_confined info w sc k s :
+  scan_bounded info w sc -> ti_class (info (sc_table sc)) = CSlot k -> 0 < k -> s mod k = 0 ->
+  (forall lo, has_bnd sc (TsLo lo) -> lo <= s) -> (forall hi, has_bnd sc (TsHi hi) -> s < hi) ->
+  fl_slot k (w_lo_min w) <= s /\ s + k <= cl_slot k (w_hi_max w + 1).
+Proof.
+  intros [H _] Hc Hk Hs. rewrite Hc in H. exact (slot_window_confined k w sc s Hk H Hs).
 Qed.
 
 (* ------------------------------------------------------------------ FormatFromDate *)
